@@ -35,12 +35,19 @@ class CallMixin:
             return
         if any(isinstance(a, ast.Starred) for a in node.args) or any(k.arg is None for k in node.keywords):
             # **keys forwarding: supported only when the dict is empty/absent
-            if any(isinstance(a, ast.Starred) for a in node.args):
-                raise Unsupported("*args in call", node)
+            pass
         for s0, f in self.ev(node.func, st, fr):
             if isinstance(f, Poison) or s0.dead:
                 continue
-            for s1, args in self.ev_many(list(node.args), s0, fr):
+            for s1, args0 in self.ev_many([a.value if isinstance(a, ast.Starred) else a for a in node.args], s0, fr):
+                args = []
+                for an, av in zip(node.args, args0):
+                    if isinstance(an, ast.Starred):
+                        if not isinstance(av, tuple):
+                            raise Unsupported("*args of a non-tuple", node)
+                        args.extend(av)
+                    else:
+                        args.append(av)
                 kws = [k for k in node.keywords if k.arg is not None]
                 star = [k for k in node.keywords if k.arg is None]
                 for s2, kvals in self.ev_many([k.value for k in kws], s1, fr):
@@ -94,6 +101,10 @@ class CallMixin:
             yield st, self.ev1(f.node.body, st, fr2)
             return
         if isinstance(f, Opaque):
+            pm = getattr(self, "p_" + f.tag.replace(".", "_"), None)
+            if pm is not None:
+                yield from self.call_prim(f.tag, args, kwargs, st, fr, node)
+                return
             c = self.contracts.get(f.tag)
             if c is not None:
                 yield from self.call_contract(Func("<opaque>", f.tag, None), c, args, kwargs, st, fr, node)
@@ -273,7 +284,11 @@ class CallMixin:
                 self.havoc_heap(tgt, cur, "%s@call%d" % (m, next(_cc)))
         # 4. result + postconditions
         results = [(cur, None)]
-        if c.returns and c.returns != "none":
+        if c.gen:
+            from .prims import IterView
+            srcv = env[c.gen["source"]] if "source" in c.gen else self.spec_eval_val(c.gen["source_expr"], cur, cf)
+            results = [(cur, IterView(srcv))]
+        elif c.returns and c.returns != "none":
             results = list(self.instantiate(cur, c.returns, "%s!ret%d" % (c.name.split(".")[-1], next(_cc)), fresh=True))
         for s1, rv in results:
             s1.env = dict(env)
